@@ -140,7 +140,7 @@ def run_property(pid, tier, run_fn, extra=None):
     """Run rules, print the report, write evidence, return the exit code."""
     t0 = time.time()
     ctx = Ctx(pid, tier)
-    evid_path = os.path.join(VERIF, "evidence", "%s.json" % pid)
+    evid_path = os.path.join(os.environ.get("SA_EVIDENCE_DIR") or os.path.join(VERIF, "evidence"), "%s.json" % pid)
     try:
         run_fn(ctx)
         if extra:
@@ -149,10 +149,14 @@ def run_property(pid, tier, run_fn, extra=None):
         for i in ctx.insts:
             c = counts.setdefault(i.rule, {"ok": 0, "violation": 0, "info": 0})
             c[i.status] = c.get(i.status, 0) + 1
+        any_violation = any(i.status == "violation" for i in ctx.insts)
         for rule, n in ctx.floors.items():
             c = counts.get(rule, {"ok": 0, "violation": 0})
             have = c["ok"] + c["violation"]
-            if have < n:
+            if have < n and any_violation:
+                ctx.note("rule %s matched %d instances (floor %d): instances are missing, see the violations" %
+                         (rule, have, n))
+            elif have < n:
                 raise AnalysisError("rule=%s matched %d instances, fewer than the %d confirmed by hand "
                                     "(an anchor vanished or an idiom is no longer recognised)" % (rule, have, n))
     except AnalysisError as e:
@@ -165,7 +169,7 @@ def run_property(pid, tier, run_fn, extra=None):
         _write_evidence(evid_path, pid, tier, ctx, t0, error=tb.splitlines()[-1])
         return 2
 
-    rdir = os.path.join(VERIF, "evidence", "replay")
+    rdir = os.path.join(os.path.dirname(evid_path), "replay")
     if os.path.isdir(rdir):
         for f in os.listdir(rdir):
             if f.startswith(pid + "."):
@@ -200,7 +204,6 @@ def run_property(pid, tier, run_fn, extra=None):
     rc = 0
     if new:
         rc = 1
-        rdir = os.path.join(VERIF, "evidence", "replay")
         os.makedirs(rdir, exist_ok=True)
         per = {}
         for v in new:
